@@ -299,6 +299,27 @@ impl Subject for SMu {
     relocate!();
 }
 
+pub struct SMuU(pub MergeUnbounded<UStream>);
+impl Subject for SMuU {
+    fn poll(&mut self, cx: &mut Context<'_>) -> PollOut {
+        map_item(in_crate(|| Pin::new(&mut self.0).poll_next(cx)))
+    }
+    fn push(&mut self, id: u32, _how: PushHow, _panicking: bool) -> PushRes {
+        let s = UStream { id };
+        in_crate(|| self.0.push(s));
+        PushRes::Accepted
+    }
+    fn obs(&self) -> Obs {
+        in_crate(|| Obs {
+            len: Some(self.0.len()),
+            is_empty: Some(self.0.is_empty()),
+            size_hint: Some(self.0.size_hint()),
+            ..Obs::default()
+        })
+    }
+    relocate!();
+}
+
 // ---------------------------------------------------------------- adapters
 pub struct SBu(pub BufferUnordered<Upstream<F>>);
 impl Subject for SBu {
@@ -330,6 +351,46 @@ impl Subject for STbu {
     }
     relocate!();
 }
+/// `buffered_ordered` over futures whose output is zero-sized. A `()` cannot say who produced it:
+/// the k-th `()` handed out is attributed to the k-th item pulled (the order itself cannot be
+/// observed here), which must have completed by then; all counting oracles apply as usual.
+pub struct SBoZ(pub BufferedOrdered<Upstream<UF>>);
+impl Subject for SBoZ {
+    fn poll(&mut self, cx: &mut Context<'_>) -> PollOut {
+        match in_crate(|| Pin::new(&mut self.0).poll_next(cx)) {
+            Poll::Pending => PollOut::Pending,
+            Poll::Ready(None) => PollOut::Done,
+            Poll::Ready(Some(())) => {
+                let id = w(|w| {
+                    let id = (0..w.children.len() as u32).find(|&i| {
+                        let c = &w.children[i as usize];
+                        c.accepted && !w.toks.iter().any(|t| t.id == i)
+                    });
+                    match id {
+                        Some(i) => {
+                            if !w.children[i as usize].completed {
+                                w.violate("C07", "output-without-completion", format!("an output was handed out for item {} although its future has not completed", i));
+                            }
+                            Some(i)
+                        }
+                        None => {
+                            w.violate("C02", "more-outputs-than-items", "an output was handed out although every pulled item has already been answered");
+                            None
+                        }
+                    }
+                });
+                match id {
+                    Some(i) => PollOut::Item(Ok(Tok::produce(i, 0, false))),
+                    None => PollOut::Pending,
+                }
+            }
+        }
+    }
+    fn obs(&self) -> Obs {
+        in_crate(|| Obs { size_hint: Some(self.0.size_hint()), ..Obs::default() })
+    }
+    relocate!();
+}
 pub struct STbo(pub TryBufferedOrdered<Upstream<Result<TF, Tok>>>);
 impl Subject for STbo {
     fn poll(&mut self, cx: &mut Context<'_>) -> PollOut {
@@ -343,6 +404,21 @@ impl Subject for STbo {
 
 pub fn fec_closure(it: RawItem) -> UF {
     callback(|| {
+        let boom = w(|w| {
+            let c = &mut w.children[it.0 as usize];
+            if c.closure_panics {
+                // no future comes into being for this item: nothing to poll, nothing to drop
+                c.no_drop_glue = true;
+                w.closure_calls.push(it.0);
+                w.logf(|| format!("    the closure panics for item {}", it.0));
+                true
+            } else {
+                false
+            }
+        });
+        if boom {
+            std::panic::resume_unwind(Box::new(ChildPanic(it.0)));
+        }
         w(|w| {
             w.closure_calls.push(it.0);
             if !w.children[it.0 as usize].accepted {
@@ -581,6 +657,10 @@ pub enum Kind {
     Mu(usize),
     /// MergeUnbounded::from_iter of k sources
     MuIter(usize),
+    /// the unbounded merge over `Unpin` sources that live directly in its slots
+    MuU(usize),
+    /// `buffered_ordered` over futures with a zero-sized output
+    BoZ(usize),
     Bu(usize),
     Bo(usize),
     Tbu(usize),
@@ -605,7 +685,7 @@ impl Kind {
     pub fn is_ordered(self) -> bool {
         matches!(
             self,
-            Kind::Fob(_) | Kind::FobIter(_) | Kind::FoNew | Kind::FoCap(_) | Kind::FoIter(_) | Kind::Bo(_) | Kind::Tbo(_) | Kind::FobN(_)
+            Kind::Fob(_) | Kind::FobIter(_) | Kind::FoNew | Kind::FoCap(_) | Kind::FoIter(_) | Kind::Bo(_) | Kind::Tbo(_) | Kind::FobN(_) | Kind::BoZ(_)
         )
     }
     pub fn is_collection(self) -> bool {
@@ -627,10 +707,10 @@ impl Kind {
         )
     }
     pub fn is_merge(self) -> bool {
-        matches!(self, Kind::Mb(_) | Kind::Mu(_) | Kind::MuIter(_))
+        matches!(self, Kind::Mb(_) | Kind::Mu(_) | Kind::MuIter(_) | Kind::MuU(_))
     }
     pub fn is_adapter(self) -> bool {
-        matches!(self, Kind::Bu(_) | Kind::Bo(_) | Kind::Tbu(_) | Kind::Tbo(_) | Kind::Fec(_))
+        matches!(self, Kind::Bu(_) | Kind::Bo(_) | Kind::Tbu(_) | Kind::Tbo(_) | Kind::Fec(_) | Kind::BoZ(_))
     }
     pub fn is_join(self) -> bool {
         matches!(self, Kind::Ja(_) | Kind::Tja(_) | Kind::JaP(_) | Kind::TjaP(_) | Kind::JaN(_) | Kind::TjaN(_) | Kind::JaZ(_))
@@ -742,12 +822,21 @@ pub fn build(kind: Kind, prefill: &[u32], inexact: bool) -> Option<Box<dyn Subje
                 }
                 Box::new(SMu(m))
             }
+            Kind::MuU(_) => {
+                let mut m = in_crate(MergeUnbounded::new);
+                for &i in prefill {
+                    let s = UStream { id: i };
+                    in_crate(|| m.push(s));
+                }
+                Box::new(SMuU(m))
+            }
             Kind::MuIter(_) => {
                 let it: Vec<Pin<Box<ScriptStream>>> = prefill.iter().map(|&i| Box::pin(ScriptStream::new(i))).collect();
                 Box::new(SMu({ let it = feed(it, inexact); in_crate(|| it.collect()) }))
             }
             Kind::Bu(n) => Box::new(SBu(in_crate(|| Upstream::<F>::new().buffered_unordered(n)))),
             Kind::Bo(n) => Box::new(SBo(in_crate(|| Upstream::<F>::new().buffered_ordered(n)))),
+            Kind::BoZ(n) => Box::new(SBoZ(in_crate(|| Upstream::<UF>::new().buffered_ordered(n)))),
             Kind::Tbu(n) => {
                 Box::new(STbu(in_crate(|| Upstream::<Result<TF, Tok>>::new().try_buffered_unordered(n))))
             }
